@@ -4,8 +4,11 @@ import (
 	"encoding/json"
 	"fmt"
 	"net/http"
+	"os"
+	"path/filepath"
 	"sort"
 	"strings"
+	"sync"
 	"testing"
 
 	"github.com/php-any/origami/data"
@@ -75,7 +78,7 @@ func (w *W) routePath() string {
 var codes = []int{200, 201, 202, 203, 204, 205, 226, 301, 302, 304, 307, 308, 400, 401, 403, 404, 409, 418, 422, 429, 451, 500, 502, 503}
 
 func genOp(r *verifsim.Rng, n int) ROp {
-	k := verifsim.Pick(r, []string{"status", "status", "header", "header", "cookie", "write", "write", "json", "html", "redirect", "nocontent", "writeheader", "success", "error"})
+	k := verifsim.Pick(r, []string{"status", "status", "header", "header", "cookie", "write", "write", "json", "html", "redirect", "nocontent", "writeheader", "success", "error", "format", "file"})
 	op := ROp{K: k}
 	switch k {
 	case "status", "writeheader":
@@ -121,6 +124,11 @@ func genOp(r *verifsim.Rng, n int) ROp {
 	case "error":
 		op.A = fmt.Sprintf("e%d", n)
 		op.C = verifsim.Pick(r, []int{400, 404, 500, 503})
+	case "format": // the envelope of success()/error() with a code of the caller's choice
+		op.A = fmt.Sprintf("f%d", n)
+		op.C = verifsim.Pick(r, []int{200, 201, 202, 400, 409, 500})
+	case "file": // a download: content type by extension, attachment disposition, the file's bytes
+		op.A = fmt.Sprintf("dl%d.bin", n)
 	}
 	return op
 }
@@ -200,7 +208,7 @@ func gen(r *verifsim.Rng, tier string) (any, hx.Sched) {
 		// so with a custom formatter the error handler does not use them.
 		var keep []ROp
 		for _, op := range w.OnError {
-			if op.K != "success" && op.K != "error" {
+			if op.K != "success" && op.K != "error" && op.K != "format" {
 				keep = append(keep, op)
 			}
 		}
@@ -324,6 +332,10 @@ func render(op ROp, v string) string {
 		return fmt.Sprintf("%s->success([\"d\" => %q]);", v, op.A)
 	case "error":
 		return fmt.Sprintf("%s->error(%q, %d);", v, op.A, op.C)
+	case "format":
+		return fmt.Sprintf("%s->format(%d, %q, [\"d\" => 1]);", v, op.C, op.A)
+	case "file":
+		return fmt.Sprintf("%s->file(%q, %q);", v, fixtureFile(), op.A)
 	}
 	panic("unknown op " + op.K)
 }
@@ -390,7 +402,7 @@ func script(w *W) string {
 	// calibration routes: one body-producing operation alone, no middleware, no error handler
 	for _, n := range all {
 		switch n.op.K {
-		case "json", "html", "success", "error":
+		case "json", "html", "success", "error", "format", "file":
 			fmt.Fprintf(&b, "$server->get('/solo/%d', function ($req, $res) { %s });\n", n.id, render(n.op, "$res"))
 		}
 	}
@@ -535,9 +547,13 @@ func (m *model) apply(n numbered) bool {
 		m.setStatus(200)
 		m.setHeader("Content-Type", "application/json; charset=utf-8")
 		return m.write(m.bodies[n.id])
-	case "error":
+	case "error", "format":
 		m.setStatus(op.C)
 		m.setHeader("Content-Type", "application/json; charset=utf-8")
+		return m.write(m.bodies[n.id])
+	case "file":
+		m.setHeader("Content-Type", "application/octet-stream")
+		m.setHeader("Content-Disposition", fmt.Sprintf("attachment; filename=%q", op.A))
 		return m.write(m.bodies[n.id])
 	}
 	return true
@@ -642,7 +658,7 @@ func exec(t *testing.T, x any, s hx.Sched) *hx.Outcome {
 			// calibration: body bytes of each body-producing operation when it is the only one
 			for _, n := range all {
 				switch n.op.K {
-				case "json", "html", "success", "error":
+				case "json", "html", "success", "error", "format", "file":
 					c := hx.NewSimConn()
 					lg = nil
 					hx.Serve(mux, c, hx.NewRequest("GET", fmt.Sprintf("/solo/%d", n.id), nil, nil, nil))
@@ -714,6 +730,26 @@ func exec(t *testing.T, x any, s hx.Sched) *hx.Outcome {
 	o.NonTrivial = len(w.Ops) > 0
 	o.Sample = map[string]any{"workload": w, "requests": sampleReqs, "script": src}
 	return o
+}
+
+var fixtureOnce sync.Once
+
+// fixtureFile is the (small: one Write on the connection) file that the "file" operation sends.
+func fixtureFile() string {
+	p := filepath.Join(filepath.Dir(os.Args[0]), "c13files", "payload.bin")
+	fixtureOnce.Do(func() {
+		os.MkdirAll(filepath.Dir(p), 0o755)
+		text := strings.Repeat("FILE-PAYLOAD;", 8)
+		if b, err := os.ReadFile(p); err == nil && string(b) == text {
+			return
+		}
+		tmp := fmt.Sprintf("%s.%d", p, os.Getpid())
+		if err := os.WriteFile(tmp, []byte(text), 0o644); err != nil {
+			panic(err)
+		}
+		os.Rename(tmp, p)
+	})
+	return p
 }
 
 func atoi(s string) int {
